@@ -25,6 +25,7 @@
 (*   evq     per storage: events expected since the reader last read,      *)
 (*           each <<kind, index, optional>> with kind "I" | "M" | "R"      *)
 (*   lazyq   FIFO of queued lazy actions                                   *)
+(*   mdoom   the maintain in progress had deferred deletions to apply      *)
 (*   peak    largest number of simultaneously not-dead handles so far      *)
 (*   led     cid -> "held" | "returned" | "destroyed"   (C08 ledger)       *)
 (*   zdes, zret  zero-sized values destroyed by the library / handed back  *)
@@ -65,7 +66,7 @@ W0(cfg) ==
     emit   |-> [s \in 1..cfg.S |-> TRUE],
     evq    |-> [s \in 1..cfg.S |-> <<>>],
     resid  |-> [s \in 1..cfg.S |-> {}],
-    lazyq  |-> <<>>, peak |-> 0, led |-> <<>>, zdes |-> 0, zret |-> 0,
+    lazyq  |-> <<>>, mdoom |-> FALSE, peak |-> 0, led |-> <<>>, zdes |-> 0, zret |-> 0,
     inm    |-> 0, fault |-> FALSE, tid |-> cfg.tid ]
 
 NotDead(w) == {h \in w.issued : w.status[h] # "dead"}
@@ -302,7 +303,8 @@ DeleteAll(w, ev) == [w |-> Purge(w, SortedById(NotDead(w))), f |-> {}]
 
 MaintainBegin(w, ev) ==
   LET w1 == Purge(w, SortedById({h \in w.issued : w.status[h] = "doomed"})) IN
-  [w |-> [w1 EXCEPT !.merged = [h \in w.issued |-> TRUE], !.inm = @ + 1], f |-> {}]
+  [w |-> [w1 EXCEPT !.merged = [h \in w.issued |-> TRUE], !.inm = @ + 1,
+                    !.mdoom = \E h \in w.issued : w.status[h] = "doomed"], f |-> {}]
 
 LazyRun(w, ev) ==
   LET w1 == DrainSilent(w)
@@ -560,6 +562,10 @@ Fault(w, ev) ==
                                                           ELSE w.resid[s]],
                       !.led = LedSetAll(LedSetAll(w.led, des, "destroyed"), ret, "returned"),
                       !.evq = [s \in DOMAIN w.comp |-> <<>>],
+                      \* a destructor that panics inside a queued lazy action unwinds out of the queue's
+                      \* maintain, which discards the rest of the queue (no deferred deletion was being
+                      \* applied, so the destructor was called from a lazy action)
+                      !.lazyq = IF ev.in = "MaintainBegin" /\ ~w.mdoom THEN <<>> ELSE w.lazyq,
                       !.inm = 0],
       f |-> {F("C19", "a lookup returns a value that was already destroyed / handed back (storage, handle, value)",
                <<p[1], o.hs[p[2]], o.st[p[1]].get[p[2]]>>) : p \in exposed}
